@@ -54,6 +54,23 @@ func restoreIndex(rootGoitPath, path string, index *store.Index, tree *object.Tr
 	return nil
 }
 
+// getDirNode finds the directory of that path in a tree, looking past a file of the same name
+func getDirNode(children []*object.Node, path string) (*object.Node, bool) {
+	if i := strings.LastIndex(path, "/"); i >= 0 {
+		parent, ok := getDirNode(children, path[:i])
+		if !ok {
+			return nil, false
+		}
+		children, path = parent.Children, path[i+1:]
+	}
+	for _, node := range children {
+		if node.Name == path && len(node.Children) > 0 {
+			return node, true
+		}
+	}
+	return nil, false
+}
+
 func restoreWorkingDirectory(rootGoitPath, path string, index *store.Index) error {
 	_, entry, isEntryFound := index.GetEntry([]byte(path))
 	if !isEntryFound {
@@ -143,7 +160,9 @@ var restoreCmd = &cobra.Command{
 				// the paths to restore are decided by what is staged and what HEAD holds,
 				// not by what happens to be on disk
 				node, isNodeFound := object.GetNode(tree.Children, cleanedArg)
-				isNodeDir := isNodeFound && len(node.Children) > 0
+				isNodeFile := isNodeFound && len(node.Children) == 0
+				// HEAD may hold a file and a directory of this name: GetNode returns the file, which comes first
+				dirNode, isNodeDir := getDirNode(tree.Children, cleanedArg)
 				_, _, isRegistered := client.Idx.GetEntry([]byte(cleanedArg))
 				isRegisteredAsDir := client.Idx.IsRegisteredAsDirectory(cleanedArg)
 
@@ -154,8 +173,8 @@ var restoreCmd = &cobra.Command{
 					}
 					if isNodeDir {
 						// GetPaths starts at the node's own name: put the parent directories back
-						parent := strings.TrimSuffix(cleanedArg, node.Name)
-						for _, path := range node.GetPaths() {
+						parent := strings.TrimSuffix(cleanedArg, dirNode.Name)
+						for _, path := range dirNode.GetPaths() {
 							paths = append(paths, parent+path)
 						}
 					}
@@ -167,7 +186,7 @@ var restoreCmd = &cobra.Command{
 					}
 				}
 				// the name may (also) be a file, staged or in HEAD
-				if isRegistered || (isNodeFound && !isNodeDir) {
+				if isRegistered || isNodeFile {
 					if err := restoreIndex(client.RootGoitPath, cleanedArg, client.Idx, tree); err != nil {
 						return err
 					}
